@@ -108,7 +108,13 @@ class ProjectGen:
                     for _k in range(r.choice([1, 1, 2])):
                         callee = r.choice(cands)
                         blk = r.choice(all_blocks(m["body"]))
-                        blk.insert(r.randint(0, len(blk)) if r.random() < 0.7 else 0, make_call(mk, callee["name"], True, self.extra_args(callee, True)))
+                        ncall = make_call(mk, callee["name"], True, self.extra_args(callee, True))
+                        if r.random() < 0.3:
+                            kind, blk = r.choice(tail_blocks(m["body"]))
+                            blk.append(ncall)
+                            self.hit("nested_call_last_in_" + kind)
+                        else:
+                            blk.insert(r.randint(0, len(blk)) if r.random() < 0.7 else 0, ncall)
                         self.hit("nested_call")
                         if macro_home[callee["name"]] == f:
                             self.hit("nested_call_same_file")
@@ -141,8 +147,21 @@ class ProjectGen:
                 near = [m for m in visible if macro_home[m["name"]] == main or macro_home[m["name"]] in imports_of[main]]
                 if near and r.random() < 0.8:
                     callee = r.choice(near)
-                blk = r.choice(all_blocks(r.choice(bodies)))
-                blk.insert(r.randint(0, len(blk)), make_call(mk, callee["name"], False, self.extra_args(callee, False)))
+                body = r.choice(bodies)
+                blk = r.choice(all_blocks(body))
+                call = make_call(mk, callee["name"], False, self.extra_args(callee, False))
+                tails = tail_blocks(body)
+                if tails and r.random() < 0.45:
+                    # the call as LAST op-producing statement of a loop body / case body / if branch / routine (what follows the
+                    # expansion is then an op the enclosing construct generates: increment, back jump, end jump, loop test)
+                    kind, blk = r.choice(tails)
+                    at = len(blk)
+                    if blk and blk[-1]["t"] == "ctrl" and blk[-1]["k"] in ("break", "continue", "break_loop") and r.random() < 0.5:
+                        at -= 1
+                    blk.insert(at, call)
+                    self.hit("macro_call_last_in_" + kind)
+                else:
+                    blk.insert(r.randint(0, len(blk)), call)
                 self.hit("macro_call")
                 home = macro_home[callee["name"]]
                 if home != main and home not in imports_of[main]:
@@ -208,6 +227,34 @@ class ProjectGen:
         ops = [s for blk in all_blocks(body) for s in blk if s["t"] == "op"]
         if ops:
             self.r.choice(ops)["args"].append({"k": "var", "v": p})
+
+
+def tail_blocks(body: list[dict]) -> list[tuple[str, list[dict]]]:
+    """(kind, statement list) of every block whose end is followed by an op of the enclosing construct"""
+    out: list[tuple[str, list[dict]]] = [("routine", body)]
+
+    def walk(ss: list[dict]) -> None:
+        for s in ss:
+            t = s["t"]
+            if t == "if":
+                for b in s["branches"]:
+                    out.append(("if", b["body"]))
+                    walk(b["body"])
+                if s.get("else") is not None:
+                    out.append(("else", s["else"]))
+                    walk(s["else"])
+            elif t == "switch":
+                for c in s["cases"]:
+                    if c["body"]:
+                        out.append(("case", c["body"]))
+                    walk(c["body"])
+            elif t in ("forever", "while", "for"):
+                out.append((t, s["body"]))
+                walk(s["body"])
+    walk(body)
+    # loops first: they are rarer than if branches
+    loops = [x for x in out if x[0] in ("for", "while", "forever")]
+    return loops * 3 + out
 
 
 def layouts_for(project: dict, rnd: random.Random, style: str) -> None:
